@@ -5,6 +5,7 @@ import (
 	"fmt"
 	"net/http"
 	"strings"
+	"sync"
 	"time"
 )
 
@@ -190,6 +191,39 @@ func suiteV07(c *vctx) {
 		allNonces[string(nn)] = true
 	}
 	c.emit(fmt.Sprintf("law.C07.no_two_tokens_share_a_nonce %d", len(allNonces)), vtf(distinct))
+	// … also when tokens are issued concurrently (every HTTP handler goroutine shares the factory)
+	{
+		fc, _ := NewWebSessionFactory(time.Minute)
+		workers, per := 8, 1500
+		if c.thorough() {
+			workers, per = 16, 10000
+		}
+		res := make([][]string, workers)
+		var wg sync.WaitGroup
+		for w := 0; w < workers; w++ {
+			wg.Add(1)
+			go func(w int) {
+				defer wg.Done()
+				for i := 0; i < per; i++ {
+					_, _, text := fc.Generate("u", false)
+					nn, _ := splitTok(text)
+					res[w] = append(res[w], string(nn))
+				}
+			}(w)
+		}
+		wg.Wait()
+		seen := map[string]bool{}
+		ok := true
+		for _, l := range res {
+			for _, nn := range l {
+				if seen[nn] {
+					ok = false
+				}
+				seen[nn] = true
+			}
+		}
+		c.emit(fmt.Sprintf("law.C07.no_two_concurrently_issued_tokens_share_a_nonce %d", len(seen)), vtf(ok))
+	}
 }
 
 func init() { vsuites["v07"] = suiteV07 }
